@@ -360,6 +360,30 @@ def check_groups(ctx):
                 if isinstance(c, ast.Call) and A.call_name(c) == "update_recursively" and len(c.args) == 3 \
                         and A.const(c.args[1]) == "output.changed" and A.src(c.args[2]) == name:
                     okg = True
+    if not okg:
+        # any() written as a loop: `changed = False; for c in contexts: if <flag of c>: changed = True [; break]`
+        for l in [l for l in A.walk_local(gp) if isinstance(l, ast.For) and isinstance(l.target, ast.Name) and not l.orelse]:
+            body = [b for b in l.body if not A.is_noop_stmt(b)]
+            if len(body) != 1 or not isinstance(body[0], ast.If) or body[0].orelse:
+                continue
+            t = body[0].test
+            if not (isinstance(t, ast.Call) and A.call_name(t) == "get_recursively" and len(t.args) >= 2 and A.src(t.args[0]) == l.target.id
+                    and A.const(t.args[1]) == "output.changed" and (len(t.args) < 3 or not A.const(t.args[2], True))):
+                continue
+            ib = [b for b in body[0].body if not A.is_noop_stmt(b)]
+            if not ib or not (isinstance(ib[0], ast.Assign) and len(ib[0].targets) == 1 and isinstance(ib[0].targets[0], ast.Name)
+                              and A.is_const(ib[0].value, True)) or any(not isinstance(b, ast.Break) for b in ib[1:]):
+                continue
+            name = ib[0].targets[0].id
+            blk = getattr(A.parent(l), "body", [])
+            before = [b for b in blk[:blk.index(l)] if not A.is_noop_stmt(b)] if l in blk else []
+            init_ok = bool(before) and isinstance(before[-1], ast.Assign) and A.src(before[-1].targets[0]) == name and A.is_const(before[-1].value, False)
+            others = [a for a in A.walk_local(gp) if isinstance(a, (ast.Assign, ast.AugAssign)) and any(name in A.target_names(x) for x in A.assigned_targets(a))
+                      and a is not ib[0] and not (before and a is before[-1])]
+            stored = any(isinstance(c, ast.Call) and A.call_name(c) == "update_recursively" and len(c.args) == 3
+                         and A.const(c.args[1]) == "output.changed" and A.src(c.args[2]) == name for c in A.walk_local(gp))
+            if init_ok and not others and stored:
+                okg = True
     ctx.check("C19-b", okg, gp, "group_plots does not set the group's output.changed to any(members' output.changed)",
               detail="group_plots: changed = any(members)", construct="group_plots-any")
     ug = ctx.tree.func("lena.flow.group_plots", "_update_with_group")
@@ -372,6 +396,9 @@ def check_groups(ctx):
         (lambda v, S: isinstance(v, ast.Call) and A.call_name(v) == "set" and v.args and isinstance(v.args[0], (ast.GeneratorExp, ast.ListComp))
          and is_flag_lookup(v.args[0].elt, A.src(v.args[0].generators[0].target)) and A.src(v.args[0].generators[0].iter) == ups[1]
          and not v.args[0].generators[0].ifs, "all_changed"),
+        (lambda v, S: isinstance(v, ast.SetComp) and len(v.generators) == 1
+         and is_flag_lookup(v.elt, A.src(v.generators[0].target)) and A.src(v.generators[0].iter) == ups[1]
+         and not v.generators[0].ifs, "all_changed"),
     ], res=res)
     # the flag that is finally stored with update_recursively(context, "output.changed", <flag>)
     for c in A.walk_local(ug):
